@@ -10,6 +10,8 @@ import PBProofs.Lemmas.DbInj
 import PB.Model.Iter
 import PBProofs.Lemmas.IterHandOver
 import PB.Gen.DbIter
+import PB.Gen.DbReg
+import PBProofs.Lemmas.IterRegQuery
 /-
 C03 — Secret and crown-jewel records never cross a non-privileged database interface.
 Property theorems only (helper lemmas live in PBProofs/Lemmas/DbPerm.lean).
@@ -36,6 +38,11 @@ theorem source_hasAllPermissions_is_model (o : Opts) :
 
 /-- Every interface the database API opens (`NewInterface(nil)`) is neither local nor internal. -/
 theorem api_is_unprivileged : ∀ p ∈ PB.Gen.DbPerm.apiInterfaces, p = (false, false) := by decide
+
+/-- Every function of package api that constructs a `DatabaseAPI` (regenerated list over all files of the package; the
+    extractor refuses a constructor the harness has no driver for) gives it an interface that is neither local nor
+    internal — the in-process constructor and the websocket endpoint alike. -/
+theorem api_constructors_unprivileged : ∀ c ∈ PB.Gen.DbPerm.apiConstructors, c.2 = (false, false) := by decide
 
 /-- More privileges never see less. -/
 theorem permitted_monotone (m : Meta) (l i l' i' : Bool) (hl : l = true → l' = true) (hi : i = true → i' = true)
@@ -484,6 +491,44 @@ theorem snapshot_time_check_hands_over_marked_record :
       0 ∈ s.due ∧ 0 ∈ s.recvd := by
   refine ⟨[.protect 0, .check, .send, .recv], _, rfl, ?_, ?_⟩ <;> decide
 
+/-! ### A query on an injected runtime database served by several value providers at once
+
+`Registry.Query` runs one goroutine per provider; the filter verdict of a record is written while the record is locked
+and read after it was unlocked. Model `PB.Iter.RegQuery`; goroutine structure, decision variable, its conjuncts and the
+scopes of the filter variables are regenerated from runtime/registry.go on every run (`PB.Gen.DbReg`). -/
+
+/-- The source as found: one goroutine per provider; the decision reads a conjunction that contains `CheckPermission`
+    (with `Query`'s own `local` / `internal`) and `CheckValidity` of the loop's record; the decision variable and every
+    variable the evaluation writes are declared inside the goroutine (record loop or function literal), none in `Query`
+    itself where the provider goroutines would share it. -/
+theorem source_registry_query_filter_is_goroutine_local :
+    PB.Gen.DbReg.goroutinePerProvider = true ∧
+    "CheckPermission" ∈ PB.Gen.DbReg.decisionConjuncts ∧ "CheckValidity" ∈ PB.Gen.DbReg.decisionConjuncts ∧
+    "MatchesKey" ∈ PB.Gen.DbReg.decisionConjuncts ∧ "MatchesRecord" ∈ PB.Gen.DbReg.decisionConjuncts ∧
+    PB.Gen.DbReg.decisionVarScope ≤ 1 ∧
+    (∀ v ∈ PB.Gen.DbReg.filterVarScopes, v.2 ≤ 1) ∧
+    (PB.Gen.DbReg.decisionVar, PB.Gen.DbReg.decisionVarScope) ∈ PB.Gen.DbReg.filterVarScopes := by decide
+
+/-- For every number of providers, every list of records per provider (each with the verdict of the filter on it) and
+    every interleaving of the provider goroutines' evaluation and decision steps — with the decision variable where the
+    source declares it —: every record sent into the result stream passed the filter, i.e. is permitted for the
+    querying interface. -/
+theorem registry_query_concurrent_permitted (providers : List (List (Nat × Bool))) (sched : List Iter.RegQuery.Act)
+    (s : Iter.RegQuery.St)
+    (h : Iter.RegQuery.exec (decide (PB.Gen.DbReg.decisionVarScope = 2)) (Iter.RegQuery.init providers) sched = some s) :
+    ∀ x ∈ s.out, x.2 = true := by
+  have hsc : decide (PB.Gen.DbReg.decisionVarScope = 2) = false := by decide
+  rw [hsc] at h
+  exact (Iter.RegQuery.inv_exec sched _ s (Iter.RegQuery.inv_init providers) h).2
+
+/-- With the decision variable declared in `Query` itself (shared by the provider goroutines) the statement is false:
+    two providers, one with a permitted record 0, one with a protected record 1; the second goroutine evaluates its
+    record (not allowed), the first evaluates its own (allowed), the second decides — and sends the protected record. -/
+theorem registry_query_shared_filter_state_leaks :
+    ∃ sched s, Iter.RegQuery.exec true (Iter.RegQuery.init [[(0, true)], [(1, false)]]) sched = some s ∧
+      (1, false) ∈ s.out :=
+  ⟨[.eval 1, .eval 0, .decide 1, .decide 0], _, rfl, by decide⟩
+
 /-! ### Non-vacuity -/
 
 /-- Two stores that differ in the content, expiry and crown-jewel flag of a secret record are indistinguishable
@@ -544,5 +589,10 @@ example :
 example : ((Iter.HandOver.exec (Iter.HandOver.init [0, 1, 2] 1) [.check, .send, .protect 1, .recv, .check, .check, .send, .recv]).map
     (fun s => (s.recvd, s.due))) = some ([2, 0], [1]) := by decide
 example : PB.Gen.DbIter.nextCap > 0 := by decide
+
+/-- A complete run of three provider goroutines (two records, one record, no record) under an adversarial schedule
+    that parks every decision behind another goroutine's evaluation: exactly the permitted records arrive. -/
+example : ((Iter.RegQuery.exec false (Iter.RegQuery.init [[(0, true), (1, false)], [(2, false)], []])
+      [.eval 1, .eval 0, .decide 1, .decide 0, .eval 0, .decide 0]).map (·.out)) = some [(0, true)] := by decide
 
 end PB.C03
